@@ -207,7 +207,7 @@ class Edits:
         return text, [lm.get(i) for i in range(text.count('\n') + 1)]
 
 
-REWRITE_STATS_KEYS = ['R1_call_wrap', 'R2_rng', 'R3_for_continue', 'R4_compound', 'R5_refpat']
+REWRITE_STATS_KEYS = ['R1_call_wrap', 'R2_rng', 'R3_for_continue', 'R4_compound', 'R5_refpat', 'R6_refcmp']
 
 
 def ret_rewrite(src, mask, it, retname, ed):
@@ -328,6 +328,16 @@ def apply_rewrites(src, mask, it, ed, stats, spec_entry):
         ed.insert(L['body_close'], '} } ', prio=10)
         ed.insert(L['body_close'] + 1, ' }', prio=10)
         stats['R3_for_continue'] += 1
+    # R6: `a == b` / `a != b` between two reference-typed scalar PARAMETERS => `*a == *b` (std's `impl PartialEq<&B> for &mut A`
+    #     delegates to the pointees; Verus has no specification for the mixed &mut/& impl)
+    sig = src[it['kw']:it['body_start']]
+    refparams = [m.group(1) for m in re.finditer(r'([A-Za-z_][A-Za-z0-9_]*)\s*:\s*&\s*(?:mut\s+)?(?:usize|u32|u64|i32|i64|bool|f32)\b', sig)]
+    if len(refparams) >= 2:
+        alt = '|'.join(map(re.escape, refparams))
+        for m in re.finditer(r'(?<![\w\.\*&])(%s)\s*(==|!=)\s*(%s)(?![\w\.\(\[])' % (alt, alt), body):
+            if mask[lo + m.start()] != ord('c'): continue
+            ed.replace(lo + m.start(), lo + m.end(), '*%s %s *%s' % (m.group(1), m.group(2), m.group(3)))
+            stats['R6_refcmp'] = stats.get('R6_refcmp', 0) + 1
     # R5b: `for &x in E { B }` => `for x in E { let x = *x; B }` (reference pattern on a Copy element)
     for L in loops:
         if L['kind'] != 'for': continue
@@ -753,5 +763,5 @@ class Row:
         for s, f, k in STATE_FIELDS:
             if s in touched or s in raw_covered: continue
             cl('S1.%s == S0.%s' % (s, s), 'frame.%s' % s, 'C10')
-        cl('state_wf(S1)', 'wf.buffers', 'C17,C10')
+        cl('state_wf(S1)', 'wf.buffers', 'C10' if 'C17' not in self.props and 'C18' not in self.props else props + ',C10')
         return '\n'.join(out) + '\n'
